@@ -10,6 +10,73 @@ import json
 from vlib import common, report, flow
 
 
+MIXED_FORMS = ("add_xt add_tx sub_xt sub_tx mul_xt mul_tx div_xt mod_xt and_xt or_xt xor_xt shl_xt shr_xt addeq subeq muleq diveq modeq andeq oreq "
+               "xoreq shleq shreq rel_xt rel_tx cmp add3 add3c add2 sub3 sub3c sub2 mul3 mul2 divq divr div lmul3 addmul expmod").split()
+MIXED_TYPES = "u8 s8 u16 s16 u32 s32 u64 s64 bool".split()
+
+
+def build_mixed(cfg="S"):
+    """h_recint_mixed.cpp instantiates every (form, class, K, scalar type).  Templates that are declared but never defined only
+    show up at link time, and bodies that do not compile are hard errors: build with everything first, read the linker's
+    undefined references / the compiler's errors, and rebuild with those combinations switched off (they are reported, not hidden).
+    Returns (binary, {"nolink": [...], "nobody": bool})."""
+    import hashlib, os, re
+    src = os.path.join(common.VERIF, "harness", "h_recint_mixed.cpp")
+    with open(src, "rb") as fh, open(os.path.join(common.VERIF, "harness", "proto.h"), "rb") as ph:
+        key = common.sha(common.tree_hash(), " ".join(common.CFG[cfg]), fh.read(), ph.read())
+    bdir = os.path.join(common.CACHE, "bin", "mixed_" + key)
+    binp, meta = os.path.join(bdir, "h_recint_mixed"), os.path.join(bdir, "meta.json")
+    if os.path.exists(binp) and os.path.exists(meta):
+        os.utime(bdir)
+        return binp, json.load(open(meta))
+    os.makedirs(bdir, exist_ok=True)
+    inc = common.inc_flags() + ["-I", os.path.join(common.VERIF, "harness")]
+    fast = ["-std=gnu++17", "-O0", "-DNDEBUG", "-UDEBUG", "-D" + common.GUARD, "-w"]       # discovery passes: no optimisation, no sanitizers
+    tyc = {'h': 0, 'a': 1, 't': 2, 's': 3, 'j': 4, 'i': 5, 'm': 6, 'l': 7, 'b': 8}
+    tyn = {"unsigned char": 0, "signed char": 1, "unsigned short": 2, "short": 3, "unsigned int": 4, "int": 5, "unsigned long": 6, "long": 7, "bool": 8}
+    info = {"nolink": [], "nobody": False}
+
+    def defs():
+        d = ["-DMX_NOBODY=%d" % (1 if info["nobody"] else 0)]
+        if info["nolink"]:
+            d.append("-DMX_DISABLED=" + " ".join("D(%d,%d,%d,%d)" % tuple(x) for x in info["nolink"]) + " false")
+        return d
+
+    def attempt(flags):
+        rc, o, e = common.sh(["g++"] + flags + inc + defs() + [src, "-o", binp + ".tmp", "-lgmpxx", "-lgmp"])
+        if rc == 0:
+            return True
+        errs = [l for l in e.split("\n") if " error: " in l and "ld returned" not in l]
+        if errs:
+            if not info["nobody"] and any("cannot bind non-const lvalue reference" in l for l in errs):
+                info["nobody"] = True          # rint % scalar: `return -r;` through a T&
+                return False
+            raise common.BuildError("harness h_recint_mixed does not compile against the current tree:\n" + "\n".join(errs[:20]))
+        combos = set(tuple(x) for x in info["nolink"])
+        n0 = len(combos)
+        for m in re.finditer(r"_ZN3RunILi(\d+)EN6RecInt(4rint|5ruint)ILm(\d+)EEE([hatsjimlb])E2go", e):
+            combos.add((int(m.group(1)), 1 if m.group(2) == "4rint" else 0, int(m.group(3)) - 6, tyc[m.group(4)]))
+        for m in re.finditer(r"Run<(\d+), RecInt::(rint|ruint)<(\d+)ul>, ([a-z ]+)>::go", e):
+            combos.add((int(m.group(1)), 1 if m.group(2) == "rint" else 0, int(m.group(3)) - 6, tyn[m.group(4)]))
+        if len(combos) == n0:
+            raise common.BuildError("harness h_recint_mixed does not link against the current tree:\n" + e[-3000:])
+        info["nolink"] = sorted(combos)
+        return False
+
+    for _ in range(4):                      # what does not link / whose body does not compile is found with the fast flags
+        if attempt(fast):
+            break
+    for _ in range(3):                      # the real build
+        if attempt(common.CFG[cfg]):
+            break
+    else:
+        raise common.BuildError("harness h_recint_mixed could not be built against the current tree")
+    info["nolink"] = [list(x) for x in info["nolink"]]
+    os.rename(binp + ".tmp", binp)
+    json.dump(info, open(meta, "w"))
+    return binp, info
+
+
 def run(prop, tier, seed, replay=None):
     V = report.Verdict(prop, tier, seed, "proof")
     V.assumptions = [
@@ -40,6 +107,9 @@ def run(prop, tier, seed, replay=None):
                                           "what": "RecInt::ruint<6>::ruint(const char*) is declared but not defined: ruint<6>(\"1\") / rint<6>(\"1\") do not link",
                                           "lines": ["cvu_from 6 0 1", "cvs_from 6 0 1"], "driver": [str(e)[-400:]]})
         bins["S/conv"] = flow.build_harnesses("h_recint_conv", configs=("S",), extra=(), link_lib=True)["S"]
+    # mixed operands: recursive integer (x) built-in scalar, every operator / named form, every scalar type
+    mixed_bin, mixed_info = build_mixed("S")
+    bins["S/mixed"] = mixed_bin
     lines = None
     if replay:
         lines = [l.split(" = ")[0] for l in json.load(open(replay)).get("lines", []) if l]
@@ -48,12 +118,31 @@ def run(prop, tier, seed, replay=None):
         # a different seed stream per build so that the builds do not repeat each other's cases
         mine = lines
         if lines is not None:            # replay: conversion lines go to the conversion harness, the others to the arithmetic ones
-            mine = [l for l in lines if l.startswith("cv") == cfg.endswith("/conv")]
+            kind = lambda l: "conv" if l.startswith("cv") else "mixed" if l.startswith("mx_") else "arith"
+            mine = [l for l in lines if kind(l) == ("conv" if cfg.endswith("/conv") else "mixed" if cfg.endswith("/mixed") else "arith")]
             if not mine:
                 continue
         r = flow.correspond({cfg: b}, "recint", lines=mine, harness_args=([] if mine is not None else [tier, str(seed * 16 + i)]))
         res["results"] += r["results"]
         res["crashes"] += r["crashes"]
+    if lines is None or any(l.startswith("mx_expmod") for l in lines):
+        # exp_mod with a bool exponent is not generated with the others: on a tree without fixes/C06_15 it never terminates
+        probe = ["mx_expmod %x 0 0 8 %s %x %s" % (K, x, w, y) for K in (6, 7, 8, 9) for (x, w, y) in (("3", 1, "7"), ("5", 0, "b"), ("2", 1, "1"))]
+        r = flow.correspond({"S/mixed": mixed_bin}, "recint", lines=probe, timeout=20)
+        res["results"] += r["results"]
+        for c in r["crashes"]:
+            c["what"] = "exp_mod(a, b, bool exponent, n) does not terminate (or crashed)"
+            c["line"] = c.get("line") or probe[0]
+        res["crashes"] += r["crashes"]
+    notcompiling = {}
+    for v, l, cfg in res["results"]:
+        if l.startswith("mx_"):
+            t = l.split(" ")
+            rt = l.split(" = ")[1].split(" ")[0] if " = " in l else ""
+            if rt in ("0", "8", "9"):
+                k = "%s %s: %s" % ("rint" if t[3] == "1" else "ruint", t[0][3:], {"0": "no viable / ambiguous overload", "8": "declared, never defined (link error)",
+                                                                               "9": "body does not compile"}[rt])
+                notcompiling.setdefault(k, set()).add(MIXED_TYPES[int(t[4], 16)])
     counts = flow.decide(V, res, known=report.findings_for(prop), key_of=lambda line: " ".join(line.split(" ", 2)[:1]))
     ops = {}
     for _, l, _ in res["results"]:
@@ -66,6 +155,7 @@ def run(prop, tier, seed, replay=None):
              "{0,1,2^63,2^64-1,random}), complements (b + c = 2^bits and 2^bits - 1), normalised divisors with top limb 2^63 / 2^63+1 / 2^64-1 and "
              "dividends q*b + r built so that div_2_1/div_3_2 preconditions hold, shift counts 0,1,63,64,65,bits/2+-1,bits+-1,2*bits,2^63; "
              "non-trivial = some operand outside {0,1}; distinct = distinct (operation, K, threshold, operands)",
-        extra={"operations_by_size": dict(sorted(ops.items())), "harness_builds": sorted(bins)},
+        extra={"operations_by_size": dict(sorted(ops.items())), "harness_builds": sorted(bins),
+               "mixed_forms_not_compiling": {k: sorted(v, key=MIXED_TYPES.index) for k, v in sorted(notcompiling.items())}},
         nontrivial=lambda l: any(t not in ("0", "1") for t in l.split(" = ")[0].split(" ")[3:]))
     V.finish()
